@@ -68,7 +68,14 @@ impl Hook {
         };
 
         for function in functions {
-            let res = function(ax, mnemonic)?;
+            let res = match function(ax, mnemonic) {
+                Ok(res) => res,
+                Err(e) => {
+                    // A failing hook must not block later hook registrations
+                    ax.hooks.running = false;
+                    return Err(e.into());
+                }
+            };
             if ax.state.finished || res == HookResult::Handled {
                 ax.hooks.running = false;
                 return Ok(());
